@@ -114,6 +114,8 @@ def ObjSt.afterSave (cfg : Cfg) (os : ObjSt) : ObjSt :=
 
 /-- one session cache -/
 structure Sess where
+  /-- the thread has a live SessionCache (`database._get_cache()` was called since the last close/rollback) -/
+  alive : Bool
   objs : Obj → ObjSt
   /-- `cache.objects_to_save` (objects with status 'modified', in order of first modification) -/
   toSave : List Obj
@@ -126,7 +128,7 @@ structure Sess where
 
 /-- `SessionCache.__init__`: `cache.immediate = db_session.immediate` (= `not optimistic` here) -/
 def Sess.fresh (cfg : Cfg) (s : Sid) : Sess :=
-  ⟨fun _ => ObjSt.absent, [], fun _ => false, !cfg.sessOpt s, false, []⟩
+  ⟨false, fun _ => ObjSt.absent, [], fun _ => false, !cfg.sessOpt s, false, []⟩
 
 structure State where
   /-- committed rows -/
@@ -179,6 +181,9 @@ def failSess (cfg : Cfg) (σ : State) (s : Sid) : State :=
            preLock := if σ.preLock = some s then none else σ.preLock }
 
 def setImmediate (σ : State) (s : Sid) : State := σ.withSess s { σ.sess s with immediate := true }
+
+/-- `database._get_cache()` creates the SessionCache of the thread when there is none -/
+def wake (σ : State) (s : Sid) : State := σ.withSess s { σ.sess s with alive := true }
 
 /-- [prepare_connection_for_query_execution] → [SQLiteProvider.set_transaction_mode]: when `cache.immediate` and not
     yet in a transaction, `acquire_lock()` (pre_transaction_lock, then transaction_lock) and `BEGIN IMMEDIATE`.
@@ -260,6 +265,7 @@ def okOut (v : Option Val := none) : Out := ⟨.ok v, none⟩
 /-- one statement-granularity step of session `s` -/
 def step (cfg : Cfg) (σ : State) (s : Sid) : Action → State × Out
   | .get o fu =>
+    let σ := wake σ s
     let ss := σ.sess s
     if (ss.objs o).present && (!fu || ss.forUpd o) then (σ, okOut)          -- [_find_in_cache_] hit
     else query cfg σ s fu (fun σ1 =>                                          -- [_find_in_db_]
@@ -267,7 +273,7 @@ def step (cfg : Cfg) (σ : State) (s : Sid) : Action → State × Out
       | none => (failSess cfg σ1 s, ⟨.unrepeatableRead, none⟩)
       | some σ2 => (σ2, okOut))
   | .fetch o as =>
-    query cfg σ s false (fun σ1 =>
+    query cfg (wake σ s) s false (fun σ1 =>
       match fetchRow σ1 s o as false with
       | none => (failSess cfg σ1 s, ⟨.unrepeatableRead, none⟩)
       | some σ2 => (σ2, okOut))
@@ -301,7 +307,7 @@ def step (cfg : Cfg) (σ : State) (s : Sid) : Action → State × Out
   | .commit =>
     match (σ.sess s).toSave with
     | o :: rest => saveHead cfg σ s o rest .flushing
-    | [] => (commitTxn σ s, okOut)
+    | [] => if (σ.sess s).alive then (commitTxn σ s, okOut) else (σ, okOut)   -- `commit()`: `if not caches: return`
   | .close =>
     match (σ.sess s).toSave with
     | o :: rest => saveHead cfg σ s o rest .flushing
